@@ -345,6 +345,10 @@ func expandC15(base *h.Scenario, hi *Hist, r *Rand, tier string) []*h.Scenario {
 	}
 	var out []*h.Scenario
 	variant := func(f h.Fault, k int) {
+		// (which error value comes back must not matter: the harness's own, a closed pipe, EPIPE, EOF ...)
+		if r.Bool(0.5) {
+			f.Err = r.Intn(h.NFaultErrs)
+		}
 		v := cloneScenario(base)
 		v.Faults = []h.Fault{f}
 		v.Mode = "fault:" + h.FaultNames[f.Site]
@@ -412,9 +416,12 @@ func judgeC15(hi *Hist) []*Violation {
 		return nil
 	}
 	// the error is reported to the debug output exactly once
-	want := h.ErrInjected.Error()
+	want := h.FaultErr(f.Err).Error()
 	if f.Site == h.FaultOutShort {
 		want = "short write"
+	}
+	if f.Site == h.FaultTermSize {
+		want = h.ErrInjected.Error()
 	}
 	if len(hi.Debug) != 1 {
 		add("debug-count", "%s: the debug output received %d lines %q, want exactly one", what, len(hi.Debug), hi.Debug)
